@@ -61,6 +61,9 @@ CLAIMS = {
  "C18": ("exploration", "trace automaton over the callback log + return-value table from the docstring + driver-call log monitor (mute/sense order, stale targets) on a simulated world device and on the real driver classes",
          "connect() is run over option dictionaries x environments x terminate() times; sense()/exchange() over mixed target lists; oracles are the documented callback order/counts, return values, promptness in driver calls on a virtual clock, field off after nothing found, no stale target.",
          "trusted: vf/sim/world.py; only what the docstrings state is demanded", "DESIGN.md 3/C18"),
+ "C20": ("fault_enumeration", "man-in-the-middle enumeration on the simulated air (every single bit of every response, substitutions, replays) against tag models with an independently written key/MAC computation; soundness oracles on authenticate/protect/read_with_mac/write_with_mac",
+         "Real FeliCa Lite/Lite-S, NTAG21x, Ultralight EV1/C tag classes authenticate, protect and read/write with MAC against models holding keys; True only if the model holds key(password) and nothing deciding was tampered; data returned only if byte-identical to the model's blocks; a tampered covered field must be rejected.",
+         "trusted: vf/ref/felica_mac.py, tag models in vf/sim/t2t.py and t3t.py; key equality modulo DES parity bits", "DESIGN.md 3/C20"),
  "C19": ("exploration", "wire-vs-state oracle: announced values are read off the simulated air (independent ISO 18092 / PAX reader) and compared with what the other side then uses; frame-size and MIU wire monitors; exhaustive option grid in thorough",
          "Two complete real stacks (connect(llcp=...) over the real udp driver on an in-memory net) are activated over the option grid role x brs x lri x lrt x rwt x miu x lto x agf x lsc; send-miu/recv-lto/WKS/LSC/LR/bit rate must equal the peer's announcement and maximum-size traffic must stay within them.",
          "trusted: vf/sim/fakenet.py (logical clock), the check's own frame reader", "DESIGN.md 3/C19"),
